@@ -84,9 +84,8 @@ func isCeilFunc(fn *ssa.Function) (bool, string) {
 // linear form F with the meaning F ≥ 0, using the integer lemmas
 //   x ≥ ⌈a/b⌉ ⇔ b·x − a ≥ 0          x > ⌈a/b⌉ ⇔ b·x − a − b ≥ 0
 //   x ≥ ⌊a/b⌋ ⇔ b·x − a + b − 1 ≥ 0  x > ⌊a/b⌋ ⇔ b·x − a − 1 ≥ 0     (b > 0)
-func (p *P) quorumForm(cmp *ssa.BinOp) (Lin, string, bool) {
-	x, y := cmp.X, cmp.Y
-	op := cmp.Op
+func (p *P) quorumForm(op token.Token, x0, y0 ssa.Value) (Lin, string, bool) {
+	x, y := deref(x0), deref(y0)
 	// bring into the shape  x (>=|>) y
 	switch op {
 	case token.LEQ:
@@ -189,6 +188,9 @@ func c08(p *P) {
 							}
 							if strings.Contains(s, "chainSupport") && strings.HasSuffix(s, ".power)") && strings.HasPrefix(s, "phi(0|") {
 								support = s
+							}
+							if s == "$0.chainSupport[$1].power" || (strings.HasPrefix(s, "$0.chainSupport[$1]") && strings.HasSuffix(s, ".power")) {
+								support = s // reading the map's zero value when the key is absent is the same 0
 							}
 							if s == "phi(("+T+" / 3)|0)" || s == "phi(0|("+T+" / 3))" {
 								adv = s
@@ -411,12 +413,29 @@ func (p *P) singleCmpReturn(rule string, fn *ssa.Function, what string, want Lin
 		p.r.Undecided(rule, name+": "+what, "expected a single boolean return expression")
 		return
 	}
-	cmp, ok := rets[0].Results[0].(*ssa.BinOp)
+	rv := deref(rets[0].Results[0])
+	negated := false
+	if u, isU := rv.(*ssa.UnOp); isU && u.Op == token.NOT {
+		rv, negated = deref(u.X), true
+	}
+	cmp0, ok := rv.(*ssa.BinOp)
 	if !ok {
 		p.r.Undecided(rule, name+": "+what, "return value is "+canon(rets[0].Results[0])+", not a comparison")
 		return
 	}
-	f, how, ok := p.quorumForm(cmp)
+	op := cmp0.Op
+	if negated {
+		// !(a < b) ≡ a ≥ b etc.
+		flip := map[token.Token]token.Token{token.LSS: token.GEQ, token.LEQ: token.GTR, token.GTR: token.LEQ, token.GEQ: token.LSS}
+		nop, okf := flip[cmp0.Op]
+		if !okf {
+			p.r.Undecided(rule, name+": "+what, "cannot normalise negated "+canon(cmp0))
+			return
+		}
+		op = nop
+	}
+	cmp := cmp0
+	f, how, ok := p.quorumForm(op, cmp0.X, cmp0.Y)
 	if !ok {
 		p.r.Undecided(rule, name+": "+what, "cannot normalise "+canon(cmp))
 		return
